@@ -102,6 +102,20 @@ class ConfigRejected(Exception):
     pass
 
 
+class LowPrecisionSingular(Exception):
+    """(factor + damping I) is exactly singular after rounding to a bfloat16/float16 dtype: skipped, counted."""
+
+
+def step(p, cfg):
+    """p.step(), turning a low-precision singular-matrix error into a skipped case."""
+    try:
+        p.step()
+    except Exception as e:  # noqa: BLE001
+        if is_lowprec_singular(e, cfg):
+            raise LowPrecisionSingular(str(e)[:80]) from None
+        raise
+
+
 class NonFiniteData(Exception):
     """torch produced non-finite activations/gradients for finite inputs (seen sporadically with bfloat16 CPU kernels);
     the case is outside every property's quantifier and is skipped (counted)."""
@@ -184,11 +198,28 @@ class Session:
         return self.p.damping
 
 
+def factor_dtype(cfg):
+    """Effective factor dtype: the requested one, else the activation (= parameter) dtype."""
+    return DT[cfg['fdt']] if cfg.get('fdt') else DT[cfg['pdt']]
+
+
+def low_precision(cfg):
+    lp = (torch.bfloat16, torch.float16)
+    return factor_dtype(cfg) in lp or DT[cfg['idt']] in lp
+
+
 def eps_eff(cfg, with_factor=True):
     e = [rm.eps_of(torch.float32), rm.eps_of(DT[cfg['idt']])]
-    if with_factor and cfg['fdt']:
-        e.append(rm.eps_of(DT[cfg['fdt']]))
+    if with_factor:
+        e.append(rm.eps_of(factor_dtype(cfg)))
     return max(e)
+
+
+def is_lowprec_singular(exc, cfg):
+    """(G + damping I) rounded to a bfloat16/float16 factor dtype can be exactly singular (the damping is below the
+    dtype's resolution); kfac then raises LinAlgError. That is outside the regime where a conditioning-scaled tolerance is
+    meaningful; such cases are skipped and counted, never judged."""
+    return low_precision(cfg) and type(exc).__name__ in ('LinAlgError', '_LinAlgError')
 
 
 def tol_for(cfg, kappa, maxdim, with_factor=True):
@@ -213,6 +244,8 @@ def call_case(res, fn, *args, case=None, **kw):
         res.skip('torch produced non-finite data for finite inputs')
     except ConfigRejected as e:
         res.skip('constructor rejected: ' + str(e)[:40])
+    except LowPrecisionSingular:
+        res.skip('factor + damping exactly singular in the requested low precision')
     except Exception:  # noqa: BLE001
         tb = traceback.format_exc()
         if (REPO.rstrip('/') + '/kfac/') not in tb:
